@@ -369,6 +369,43 @@ def _parse_val(s):
     return s
 
 
+def _concrete_visible(c):
+    if any(b.__name__ == "_feature_flag" for b in c.__mro__):
+        vals = {"on": c.on()}
+        if "_num_probe_vectors" in state_fields(c):
+            vals["num_probe_vectors"] = c.num_probe_vectors()
+        return vals
+    if any(b.__name__ == "_dtype_value_context" for b in c.__mro__):
+        return {str(dt): c.value(dt) for dt in DTYPES}
+    return {"value": c.value()}
+
+
+def _concrete_expected(cls, c, pre_vis, args):
+    """the documented meaning of `with C(args)` on concrete arguments (mirror of expected_visible)"""
+    cargs = args
+    if cls.__name__ == "fast_computations":
+        nm = {"_fast_covar_root_decomposition": "covar_root_decomposition", "_fast_log_prob": "log_prob", "_fast_solves": "solves"}.get(c.__name__)
+        cargs = {"state": args[nm]} if nm in args else {}
+    elif cls.__name__ == "linalg_dtypes":
+        dflt = args.get("default", torch.double)
+        nm = {"_linalg_dtype_symeig": "symeig", "_linalg_dtype_cholesky": "cholesky"}.get(c.__name__)
+        v = args.get(nm)
+        cargs = {"value": dflt if v is None else v}
+    exp = dict(pre_vis)
+    if any(b.__name__ == "_feature_flag" for b in c.__mro__):
+        if "state" in cargs:
+            exp["on"] = cargs["state"]
+        if "num_probe_vectors" in cargs and "num_probe_vectors" in exp:
+            exp["num_probe_vectors"] = cargs["num_probe_vectors"]
+    elif any(b.__name__ == "_dtype_value_context" for b in c.__mro__):
+        for dt, an in ((torch.float, "float_value"), (torch.double, "double_value"), (torch.half, "half_value")):
+            if cargs.get(an) is not None:
+                exp[str(dt)] = cargs[an]
+    elif "value" in cargs:
+        exp["value"] = cargs["value"]
+    return exp
+
+
 def replay_step(S, cls, cex):
     """run the counterexample on the REAL classes with a real with-statement; returns description of the failure or None"""
     comps = components(cls)
@@ -387,7 +424,14 @@ def replay_step(S, cls, cex):
         try:
             with _w.catch_warnings():
                 _w.simplefilter("error" if cex.get("escalate_warnings") else "ignore")
+                pre_vis = {c: _concrete_visible(c) for c in comps}
                 with cls(**args):
+                    # innermost block wins: what user code reads inside the block
+                    for c in comps:
+                        got, exp = _concrete_visible(c), _concrete_expected(cls, c, pre_vis[c], args)
+                        for k in got:
+                            if failure is None and not (got[k] is exp[k] or got[k] == exp[k]):
+                                failure = "inside the block %s.%s reads %r, expected %r" % (c.__name__, k, got[k], exp[k])
                     if cex.get("body_raises"):
                         raise KeyError("boom")
         except Warning:
@@ -400,9 +444,8 @@ def replay_step(S, cls, cex):
                 failure = "exception swallowed by __exit__"
         for (c, a), v in before.items():
             now = vars(c).get(a, "<absent>")
-            if not (now is v or now == v):
+            if failure is None and not (now is v or now == v):
                 failure = "after the block %s.%s == %r, before it was %r" % (c.__name__, a, now, v)
-                break
     finally:
         for (c, a), v in saved.items():
             setattr(c, a, v)
